@@ -176,6 +176,51 @@ pub fn gen_case(src: &mut Src, _i: usize) -> Case {
     case
 }
 
+/// magnitudes: hundreds to thousands of lines, thousands of physical rows above the view
+/// ("however much has scrolled into an unlimited scrollback")
+pub fn gen_long(src: &mut Src, _i: usize) -> Case {
+    let w = *src.pick(&[1usize, 2, 3, 7, 10, 40]);
+    let h = *src.pick(&[1usize, 2, 5, 24]);
+    let n = *src.pick(&[300usize, 1000, 1101, 1200, 2500, 4000]) + src.below(7);
+    let lines: Vec<String> = (0..n)
+        .map(|i| {
+            let len = match src.below(4) {
+                0 => 0,
+                1 => src.range(1, w + 1),
+                2 => w * src.range(1, 4),
+                _ => src.range(0, 3 * w + 2),
+            };
+            (0..len).map(|k| (b'a' + ((i * 7 + k) % 26) as u8) as char).collect()
+        })
+        .collect();
+    let mut case = Case::new(w, h, None);
+    match src.below(3) {
+        0 => case.calls.push(Call::FeedStr(lines.join("\r\n"))),
+        1 => {
+            // one call per line (the scrollback handed out by each call is dropped)
+            for (i, l) in lines.iter().enumerate() {
+                let mut p = l.clone();
+                if i + 1 < lines.len() {
+                    p.push_str("\r\n");
+                }
+                case.calls.push(Call::FeedStr(p));
+            }
+        }
+        _ => {
+            // a few big chunks cut anywhere
+            let text = lines.join("\r\n");
+            let chars: Vec<char> = text.chars().collect();
+            let k = src.range(2, 6);
+            let step = chars.len() / k + 1;
+            for c in chars.chunks(step.max(1)) {
+                case.calls.push(Call::FeedStr(c.iter().collect()));
+            }
+        }
+    }
+    case.nums = vec![*src.pick(&[1usize, 3, 11, 80]), src.range(1, 8)];
+    case
+}
+
 /// fixed texts swept over every (w, h)
 fn enum_sweep() -> Vec<Case> {
     let texts: Vec<String> = vec![
@@ -208,6 +253,7 @@ pub fn run(env: &Env) -> PropRun {
     let mut parts = vec![];
     let es = enum_sweep();
     parts.push(run_part(env, "enum-width-height-sweep", es.len(), true, "10 fixed texts x every width 1..=26 x every height 1..=8 (and a second derived size each)", &|i| es.get(i).cloned(), &j));
+    parts.push(random_part(env, "long-texts", env.tier.scale(160, 30), &gen_long, &j));
     parts.push(random_part(env, "random-texts", env.tier.scale(200_000, 30), &gen_case, &j));
     PropRun {
         parts,
